@@ -78,6 +78,8 @@ pub struct ExprStream {
     pub shapes: usize,
     pub comp_reps: usize,
     seed: u64,
+    /// Thorough tier: one generated expression in ten is drawn with deeper nesting and more tokens.
+    deep: bool,
 }
 
 impl ExprStream {
@@ -85,7 +87,7 @@ impl ExprStream {
         let corpus = gexpr::corpus();
         let (sweep_len, generated, mutated, shapes) = match tier {
             Tier::Quick => (2, 9000 * scale / 10, 4000 * scale / 10, 2500 * scale / 10),
-            Tier::Thorough => (3, 80000 * scale / 10, 30000 * scale / 10, 16000 * scale / 10),
+            Tier::Thorough => (4, 400000 * scale / 10, 150000 * scale / 10, 80000 * scale / 10),
         };
         ExprStream {
             corpus,
@@ -95,6 +97,7 @@ impl ExprStream {
             shapes,
             comp_reps: generated / 5,
             seed,
+            deep: tier == Tier::Thorough,
         }
     }
 
@@ -135,6 +138,10 @@ impl ExprStream {
                     cfg.unicode = false;
                 },
                 _ => {},
+            }
+            if self.deep && i % 10 == 9 {
+                cfg.max_depth = 5;
+                cfg.max_tokens = 8;
             }
             let mut g = gexpr::Gen { rng: &mut rng, cfg };
             return g.expr();
